@@ -63,3 +63,31 @@ def arm_byte_kill(fn: Any, hit: int, nbytes: int) -> None:
 
     mon.register_callback(TOOL, mon.events.PY_START, on_start)
     mon.set_local_events(TOOL, code, mon.events.PY_START)
+
+
+def arm_line_pause(fn: Any, line: int, hit: int, reached: str, go: str, max_wait: float = 30.0) -> None:
+    """At the `hit`-th execution of `line` of `fn`: create the file `reached`, then wait until the file `go` exists
+    (at most max_wait seconds). A schedule point: another process can be run in the gap."""
+    import time
+
+    mon = sys.monitoring
+    code = fn.__code__
+    state = {"n": 0}
+    try:
+        mon.use_tool_id(TOOL, "verif-failpoint")
+    except ValueError:
+        pass
+
+    def on_line(c: Any, ln: int) -> Any:
+        if c is not code or ln != line:
+            return mon.DISABLE
+        state["n"] += 1
+        if state["n"] == hit:
+            open(reached, "w").close()
+            t0 = time.time()
+            while not os.path.exists(go) and time.time() - t0 < max_wait:
+                time.sleep(0.01)
+        return None
+
+    mon.register_callback(TOOL, mon.events.LINE, on_line)
+    mon.set_local_events(TOOL, code, mon.events.LINE)
